@@ -102,6 +102,21 @@ func minPrec(a, b operand, unary bool) uint {
 	return p
 }
 
+// maxPrec is the precision results are held to: the LARGER operand precision (every operation
+// computes at least at that precision: Add/Subtract/Divide/Modulo at max(prec), Multiply at
+// max(prec, MinPrec of the 512-bit product)). The result of an operation must not depend on
+// which of the two operands is the narrower one, or on which is the receiver.
+func maxPrec(a, b operand, unary bool) uint {
+	p := a.prec
+	if !unary && b.prec > p {
+		p = b.prec
+	}
+	if p < 8 {
+		p = 64 // a zero-precision big.Float can only be an exact zero
+	}
+	return p
+}
+
 // expect computes what the documentation promises for op(a, b).
 func expect(op string, a, b operand) expectation {
 	an, bn := a.n, b.n
@@ -454,8 +469,11 @@ func checkNum(c *core.Ctx, idx int64, op numOp, a, b operand, sampled bool) bool
 			c.CrossNote("C06", site+": "+w, desc())
 		}
 	}
+	if !unary {
+		checkRelational(c, op, a, b, res, out, desc)
+	}
 	ex := expect(op.name, a, b)
-	p := minPrec(a, b, unary)
+	p := maxPrec(a, b, unary)
 	if ex.kind != expRecord && ex.class != "" {
 		pairClass = ex.class
 		c.Count("input-class:" + ex.class)
@@ -580,6 +598,74 @@ func checkNum(c *core.Ctx, idx int64, op numOp, a, b operand, sampled bool) bool
 		c.Sample(map[string]any{"kind": "numeric", "call": desc(), "result": fmt.Sprintf("%#v", res), "reference": expText(ex)})
 	}
 	return true
+}
+
+// relational clauses: a result must not depend on which operand is the receiver. The partner
+// call swaps the operands; the two LIBRARY results are compared exactly (big.Float.Cmp; the sign
+// of a zero is not compared), no reference involved.
+var relPartner = map[string]struct {
+	partner string
+	negate  bool
+	facet   string
+}{
+	"Add":                  {"Add", false, "a.Add(b) differs from b.Add(a)"},
+	"Multiply":             {"Multiply", false, "a.Multiply(b) differs from b.Multiply(a)"},
+	"Subtract":             {"Subtract", true, "a.Subtract(b) differs from b.Subtract(a).Negate()"},
+	"LessThan":             {"GreaterThan", false, "a.LessThan(b) differs from b.GreaterThan(a)"},
+	"GreaterThan":          {"LessThan", false, "a.GreaterThan(b) differs from b.LessThan(a)"},
+	"LessThanOrEqualTo":    {"GreaterThanOrEqualTo", false, "a.LessThanOrEqualTo(b) differs from b.GreaterThanOrEqualTo(a)"},
+	"GreaterThanOrEqualTo": {"LessThanOrEqualTo", false, "a.GreaterThanOrEqualTo(b) differs from b.LessThanOrEqualTo(a)"},
+}
+
+func precRelation(a, b operand) string {
+	switch {
+	case a.prec < b.prec:
+		return "receiver-narrower-than-argument"
+	case a.prec > b.prec:
+		return "receiver-wider-than-argument"
+	}
+	return "same-precision"
+}
+
+func checkRelational(c *core.Ctx, op numOp, a, b operand, res cty.Value, out core.Outcome, desc func() string) {
+	rel, ok := relPartner[op.name]
+	if !ok {
+		return
+	}
+	partner := opByName(rel.partner)
+	var sw cty.Value
+	so := core.Guard(func() {
+		sw = partner.call(b.v, a.v)
+		if rel.negate {
+			sw = sw.Negate()
+		}
+	})
+	c.Eval(1)
+	c.Count("clause:relational:" + op.name)
+	site := "Value." + op.name
+	class := precRelation(a, b)
+	isVal := func(v cty.Value, ty cty.Type) bool {
+		return v != cty.NilVal && v.Type() == ty && v.IsKnown() && !v.IsNull() && !v.IsMarked()
+	}
+	switch {
+	case out.Panicked != so.Panicked:
+		c.Violate(site, rel.facet+" (one call panics, the other returns)", class, desc(),
+			fmt.Sprintf("this call: panicked=%v %s; swapped call: panicked=%v %s", out.Panicked, out.PanicMsg, so.Panicked, so.PanicMsg))
+	case out.Panicked:
+		c.Count("relational:both-calls-panic:" + op.name)
+	case op.kind == "cmp":
+		if isVal(res, cty.Bool) && isVal(sw, cty.Bool) && res.True() != sw.True() {
+			c.Violate(site, rel.facet, class, desc(), fmt.Sprintf("this call %#v, swapped call %#v", res, sw))
+		}
+	default:
+		if isVal(res, cty.Number) && isVal(sw, cty.Number) {
+			x, y := res.AsBigFloat(), sw.AsBigFloat()
+			if x.Cmp(y) != 0 {
+				c.Violate(site, rel.facet, class, desc(),
+					fmt.Sprintf("this call %s (prec %d), swapped call %s (prec %d)", x.Text('g', 60), x.Prec(), y.Text('g', 60), y.Prec()))
+			}
+		}
+	}
 }
 
 func expText(ex expectation) string {
